@@ -318,13 +318,18 @@ func (s Server) Serve(c context.Context, conn network.Conn) (err error) {
 			if continueReadingRequest {
 				zw = ctx.GetWriter()
 				// Send 'HTTP/1.1 100 Continue' response.
-				_, err = zw.WriteBinary(bytestr.StrResponseContinue)
-				if err != nil {
-					return
-				}
-				err = zw.Flush()
-				if err != nil {
-					return
+				// Not to an HTTP/1.0 client: it knows no interim responses and takes the 100 for the
+				// response (RFC 9110 10.1.1 and 15.2: the expectation of an HTTP/1.0 request is ignored,
+				// no 1xx is sent). Its body is read without the invitation.
+				if ctx.Request.Header.IsHTTP11() {
+					_, err = zw.WriteBinary(bytestr.StrResponseContinue)
+					if err != nil {
+						return
+					}
+					err = zw.Flush()
+					if err != nil {
+						return
+					}
 				}
 
 				// Read body.
